@@ -394,104 +394,113 @@ func c18Determinism(c *pure.Ctx) {
 func c18Precedence(c *pure.Ctx) {
 	for _, jcDefault := range []string{"", "JCDEF"} {
 		for _, optVal := range []string{"-", "OPTVAL", "${option.p}"} {
-			for _, explicit := range []string{"-", "EXPL"} {
-				for _, explicitCtx := range []string{"-", "CTXOVR"} {
-					c.Eval()
-					b := mc.NewBase(nil, true)
-					jc := &execution.JobConfig{
-						TypeMeta:   metav1.TypeMeta{APIVersion: "execution.furiko.io/v1alpha1", Kind: "JobConfig"},
-						ObjectMeta: metav1.ObjectMeta{Namespace: "default", Name: "jc"},
-						Spec: execution.JobConfigSpec{
-							Concurrency: execution.ConcurrencySpec{Policy: execution.ConcurrencyPolicyAllow},
-							Template: execution.JobTemplateSpec{Spec: execution.JobTemplate{TaskTemplate: execution.TaskTemplate{Pod: &execution.PodTemplateSpec{
-								Spec: corev1.PodSpec{Containers: []corev1.Container{{Name: "c", Image: "img:${option.o}", Args: []string{
-									"o=${option.o}", "p=${option.p}", "job=${job.name}", "retry=${task.retry_index}", "unk=${option.unknown}|${job.nope}|${task.nope}|${jobconfig.nope}", "other=${other.x} $HOME ${}",
-								}, Env: []corev1.EnvVar{{Name: "E", Value: "${option.o}/${task.index_num}"}}}}},
-							}}}},
-							Option: &execution.OptionSpec{Options: []execution.Option{
-								{Type: execution.OptionTypeString, Name: "o", String: &execution.StringOptionConfig{Default: jcDefault}},
-								{Type: execution.OptionTypeString, Name: "p", String: &execution.StringOptionConfig{Default: "PDEF"}},
-							}},
-						},
-					}
-					if _, err := b.API.Create("env", sim.JobConfigs, jc); err != nil {
-						panic(err)
-					}
-					job := &execution.Job{
-						TypeMeta:   metav1.TypeMeta{APIVersion: "execution.furiko.io/v1alpha1", Kind: "Job"},
-						ObjectMeta: metav1.ObjectMeta{Namespace: "default", Name: "j"},
-						Spec:       execution.JobSpec{ConfigName: "jc"},
-					}
-					if optVal != "-" {
-						ov, _ := json.Marshal(map[string]string{"o": optVal})
-						job.Spec.OptionValues = string(ov)
-					}
-					subs := map[string]string{}
-					if explicit != "-" {
-						subs["option.o"] = explicit
-					}
-					if explicitCtx != "-" {
-						subs["job.name"] = explicitCtx
-					}
-					if len(subs) > 0 {
-						job.Spec.Substitutions = subs
-					}
-					desc := fmt.Sprintf("jobconfigDefault=%q optionValue=%q explicitSubstitution=%q explicitJobName=%q", jcDefault, optVal, explicit, explicitCtx)
-					stored, err := b.API.Create("env", sim.Jobs, job)
-					if err != nil {
-						c.Violate("admission", fmt.Sprintf("%s: job rejected: %v", desc, err))
-						continue
-					}
-					rj := stored.(*execution.Job)
-					c.Nontrivial(desc)
-					// expected value of ${option.o}
-					wantO := jcDefault
-					if optVal != "-" {
-						wantO = optVal
-					}
-					if explicit != "-" {
-						wantO = explicit
-					}
-					// A value that itself contains ${option.p} is substituted further by the remaining sources (p's default).
-					wantO = strings.ReplaceAll(wantO, "${option.p}", "PDEF")
-					wantJob := "j"
-					if explicitCtx != "-" {
-						wantJob = explicitCtx
-					}
-					want := []string{"o=" + wantO, "p=PDEF", "job=" + wantJob, "retry=0", "unk=|||", "other=${other.x} $HOME ${}"}
-					tmpl := rj.Spec.Template.TaskTemplate.Pod.ConvertToCoreSpec()
-					var first string
-					for rep := 0; rep < 16; rep++ {
-						pod, err := podtaskexecutor.NewPod(rj, tmpl, tasks.TaskIndex{Retry: 0, Parallel: parallel.GetDefaultIndex()})
+			for _, explicit := range []string{"-", "EXPL", ""} {
+				for _, explicitCtx := range []string{"-", "CTXOVR", ""} {
+					for _, suffix := range []string{"-", ""} {
+						c.Eval()
+						b := mc.NewBase(nil, true)
+						jc := &execution.JobConfig{
+							TypeMeta:   metav1.TypeMeta{APIVersion: "execution.furiko.io/v1alpha1", Kind: "JobConfig"},
+							ObjectMeta: metav1.ObjectMeta{Namespace: "default", Name: "jc"},
+							Spec: execution.JobConfigSpec{
+								Concurrency: execution.ConcurrencySpec{Policy: execution.ConcurrencyPolicyAllow},
+								Template: execution.JobTemplateSpec{Spec: execution.JobTemplate{TaskTemplate: execution.TaskTemplate{Pod: &execution.PodTemplateSpec{
+									Spec: corev1.PodSpec{Containers: []corev1.Container{{Name: "c", Image: "img:${option.o}", Args: []string{
+										"o=${option.o}", "p=${option.p}", "job=${job.name}", "retry=${task.retry_index}", "unk=${option.unknown}|${job.nope}|${task.nope}|${jobconfig.nope}", "other=${other.x} $HOME ${}", "sfx=out${suffix}.log",
+									}, Env: []corev1.EnvVar{{Name: "E", Value: "${option.o}/${task.index_num}"}}}}},
+								}}}},
+								Option: &execution.OptionSpec{Options: []execution.Option{
+									{Type: execution.OptionTypeString, Name: "o", String: &execution.StringOptionConfig{Default: jcDefault}},
+									{Type: execution.OptionTypeString, Name: "p", String: &execution.StringOptionConfig{Default: "PDEF"}},
+								}},
+							},
+						}
+						if _, err := b.API.Create("env", sim.JobConfigs, jc); err != nil {
+							panic(err)
+						}
+						job := &execution.Job{
+							TypeMeta:   metav1.TypeMeta{APIVersion: "execution.furiko.io/v1alpha1", Kind: "Job"},
+							ObjectMeta: metav1.ObjectMeta{Namespace: "default", Name: "j"},
+							Spec:       execution.JobSpec{ConfigName: "jc"},
+						}
+						if optVal != "-" {
+							ov, _ := json.Marshal(map[string]string{"o": optVal})
+							job.Spec.OptionValues = string(ov)
+						}
+						subs := map[string]string{}
+						if explicit != "-" {
+							subs["option.o"] = explicit
+						}
+						if explicitCtx != "-" {
+							subs["job.name"] = explicitCtx
+						}
+						if suffix != "-" {
+							subs["suffix"] = suffix // a user variable outside the reserved prefixes, set to the empty string
+						}
+						if len(subs) > 0 {
+							job.Spec.Substitutions = subs
+						}
+						desc := fmt.Sprintf("jobconfigDefault=%q optionValue=%q explicitSubstitution=%q explicitJobName=%q suffix=%q", jcDefault, optVal, explicit, explicitCtx, suffix)
+						stored, err := b.API.Create("env", sim.Jobs, job)
 						if err != nil {
-							c.Violate("newpod-error", desc+": "+err.Error())
-							break
+							c.Violate("admission", fmt.Sprintf("%s: job rejected: %v", desc, err))
+							continue
 						}
-						got := strings.Join(pod.Spec.Containers[0].Args, " ; ") + " ; img=" + pod.Spec.Containers[0].Image + " ; env=" + pod.Spec.Containers[0].Env[0].Value
-						if rep == 0 {
-							first = got
-							exp := strings.Join(want, " ; ") + " ; img=img:" + wantO + " ; env=" + wantO + "/0"
-							// Values that themselves contain variable syntax are substituted further in
-							// an implementation-defined (but fixed) order: only determinism is asserted.
-							if got != exp && !strings.Contains(optVal, "${") {
-								c.Violate("precedence", fmt.Sprintf("%s: pod has %q, expected %q", desc, got, exp))
-							}
-							c.Sample(map[string]interface{}{"case": desc, "pod": got})
-						} else if got != first {
-							c.Violate("pod-nondeterministic", fmt.Sprintf("%s: repeated NewPod differs: %q vs %q", desc, first, got), "nested-var-in-value")
-							break
+						rj := stored.(*execution.Job)
+						c.Nontrivial(desc)
+						// expected value of ${option.o}
+						wantO := jcDefault
+						if optVal != "-" {
+							wantO = optVal
 						}
-						// Another attempt built from the same in-memory Job in between must get its own values
-						// and must not disturb this one (the template is shared by reference).
-						if rep == 0 {
-							other, err := podtaskexecutor.NewPod(rj, tmpl, tasks.TaskIndex{Retry: 1, Parallel: parallel.GetDefaultIndex()})
+						if explicit != "-" {
+							wantO = explicit
+						}
+						// A value that itself contains ${option.p} is substituted further by the remaining sources (p's default).
+						wantO = strings.ReplaceAll(wantO, "${option.p}", "PDEF")
+						wantJob := "j"
+						if explicitCtx != "-" {
+							wantJob = explicitCtx
+						}
+						wantSfx := "out${suffix}.log" // unknown names outside the reserved prefixes are left alone
+						if suffix != "-" {
+							wantSfx = "out" + suffix + ".log" // the empty string is a value like any other
+						}
+						want := []string{"o=" + wantO, "p=PDEF", "job=" + wantJob, "retry=0", "unk=|||", "other=${other.x} $HOME ${}", "sfx=" + wantSfx}
+						tmpl := rj.Spec.Template.TaskTemplate.Pod.ConvertToCoreSpec()
+						var first string
+						for rep := 0; rep < 16; rep++ {
+							pod, err := podtaskexecutor.NewPod(rj, tmpl, tasks.TaskIndex{Retry: 0, Parallel: parallel.GetDefaultIndex()})
 							if err != nil {
 								c.Violate("newpod-error", desc+": "+err.Error())
 								break
 							}
-							if a := strings.Join(other.Spec.Containers[0].Args, " ; "); !strings.Contains(a, "retry=1") {
-								c.Violate("task-context-leaks", fmt.Sprintf("%s: the pod for retry 1 built after the pod for retry 0 has args %q", desc, a))
+							got := strings.Join(pod.Spec.Containers[0].Args, " ; ") + " ; img=" + pod.Spec.Containers[0].Image + " ; env=" + pod.Spec.Containers[0].Env[0].Value
+							if rep == 0 {
+								first = got
+								exp := strings.Join(want, " ; ") + " ; img=img:" + wantO + " ; env=" + wantO + "/0"
+								// Values that themselves contain variable syntax are substituted further in
+								// an implementation-defined (but fixed) order: only determinism is asserted.
+								if got != exp && !strings.Contains(optVal, "${") {
+									c.Violate("precedence", fmt.Sprintf("%s: pod has %q, expected %q", desc, got, exp))
+								}
+								c.Sample(map[string]interface{}{"case": desc, "pod": got})
+							} else if got != first {
+								c.Violate("pod-nondeterministic", fmt.Sprintf("%s: repeated NewPod differs: %q vs %q", desc, first, got), "nested-var-in-value")
 								break
+							}
+							// Another attempt built from the same in-memory Job in between must get its own values
+							// and must not disturb this one (the template is shared by reference).
+							if rep == 0 {
+								other, err := podtaskexecutor.NewPod(rj, tmpl, tasks.TaskIndex{Retry: 1, Parallel: parallel.GetDefaultIndex()})
+								if err != nil {
+									c.Violate("newpod-error", desc+": "+err.Error())
+									break
+								}
+								if a := strings.Join(other.Spec.Containers[0].Args, " ; "); !strings.Contains(a, "retry=1") {
+									c.Violate("task-context-leaks", fmt.Sprintf("%s: the pod for retry 1 built after the pod for retry 0 has args %q", desc, a))
+									break
+								}
 							}
 						}
 					}
